@@ -28,6 +28,11 @@ type c14Case struct {
 	Doc    string `json:"doc"`    // token form of the document (without the format word)
 	Approx bool   `json:"approx"` // some sample values go through float unsampling
 	Text   string `json:"text,omitempty"`
+	// termination variant of the printed text: CRLF mask over the lines (bit i mod 64 = line i), last
+	// line without terminator, bytes appended after the final terminator
+	Mask    uint64 `json:"crlf_mask,omitempty"`
+	NoFinal bool   `json:"no_final_newline,omitempty"`
+	Extra   string `json:"extra_hex,omitempty"`
 }
 
 // ---------------------------------------------------------------------------------------------
@@ -76,7 +81,22 @@ func c14One(c *Ctx, cs c14Case) {
 		c.Res.HarnessError = "generated document is not well-formed (" + wf + "): " + trunc(line)
 		return
 	}
-	pr := c.Drv.Ask("legacy.print " + line)
+	// preserving: the variant does not change the documented meaning (Driver: Doc.preserving)
+	preserving := true
+	var pr string
+	if cs.Mask != 0 || cs.NoFinal || cs.Extra != "" {
+		nf := "0"
+		if cs.NoFinal {
+			nf = "1"
+		}
+		pr = c.Drv.Ask(fmt.Sprintf("legacy.printv %d %s x%s %s", cs.Mask, nf, cs.Extra, line))
+		if strings.HasPrefix(pr, "0 ") || strings.HasPrefix(pr, "1 ") {
+			preserving = pr[0] == '1'
+			pr = pr[2:]
+		}
+	} else {
+		pr = c.Drv.Ask("legacy.print " + line)
+	}
 	if !strings.HasPrefix(pr, "x") {
 		c.Disagree("C14/model-print/"+firstWord(pr), "model cannot print the document: "+trunc(pr), "Lean model of C14 (printer)", cs)
 		return
@@ -101,6 +121,15 @@ func c14One(c *Ctx, cs c14Case) {
 	var perr error
 	if pn := safely(func() { p, perr = profile.ParseData(data) }); pn != "" {
 		c.Violation("C14/"+cs.Format+"/panic", "ParseData panics on a well-formed "+cs.Format+" document: "+pn, cs)
+		return
+	}
+	if perr != nil && !preserving {
+		// a termination the parsers are not promised to tolerate: only model and code must agree
+		c.Res.Hit(cs.Format + ":obs:variant-rejected")
+		c.Res.ModelCompared++
+		if mp := c.Drv.Ask("legacy.parsedata " + hexTok(data)); !strings.HasPrefix(mp, "err ") {
+			c.Disagree("C14/model-parse/"+cs.Format+"/accepts", "Go ParseData rejects the document (variant termination), the Lean model of ParseData does not: "+trunc(mp), "correspondence Legacy.parseDataReal ~ ParseData", cs)
+		}
 		return
 	}
 	if perr != nil {
@@ -146,7 +175,10 @@ func c14One(c *Ctx, cs c14Case) {
 	if len(p.Location) > 0 {
 		c.Res.Hit(cs.Format + ":obs:locations=" + bucket(len(p.Location)))
 	}
-	okOracle, where := c14Same(exp, got, cs.Approx)
+	okOracle, where := true, ""
+	if preserving {
+		okOracle, where = c14Same(exp, got, cs.Approx)
+	}
 	if !okOracle {
 		// a well-formed legacy document that is at the same time a syntactically valid protobuf
 		// message is taken for an (empty) protobuf profile: classify separately
@@ -178,6 +210,7 @@ type c14Gen struct {
 	c      *Ctx
 	w      *tw
 	pool   []uint64 // addresses used by this document
+	used   []uint64 // addresses that occur in some sample stack
 	max    uint64   // exclusive bound on addresses (2^32 for 32-bit CPU profiles), 0 = 2^64
 	approx bool
 	nrec   int
@@ -296,6 +329,7 @@ func (g *c14Gen) addrs(st []uint64) {
 		g.w.nat(a)
 	}
 	g.naddr += len(st)
+	g.used = append(g.used, st...)
 }
 
 var c14Files = []string{"/bin/prog", "/usr/bin/app(deleted)", "/lib/libc-2.15.so", "/lib/libm.so.6", "/lib/x.so_1", "[vdso]", "[vsyscall]", "/anon_hugepage", "/anon_hugepage(deleted)", "/home/u/cppbench_server_main", "/opt/a.so.x", "/(deleted)"}
@@ -409,7 +443,13 @@ func (g *c14Gen) mapSection() {
 	g.w.n(len(slots))
 	var prevLimit uint64
 	first := true
-	for _, sl := range slots {
+	lastEntry := -1
+	for i, sl := range slots {
+		if sl.kind != 2 {
+			lastEntry = i
+		}
+	}
+	for si, sl := range slots {
 		g.fillers(15)
 		if sl.kind == 2 {
 			g.tag("map:attr-line")
@@ -423,6 +463,16 @@ func (g *c14Gen) mapSection() {
 		}
 		var start, limit uint64
 		switch {
+		case si == lastEntry && len(g.used) > 0 && r.Chance(60):
+			// the last line of the section covers an address some sample uses (call sites are moved
+			// back by one), so that losing the line is visible
+			a := g.used[r.Intn(len(g.used))]
+			if a > 0 {
+				a--
+			}
+			start = a &^ 0xfff
+			limit = start + uint64(1+r.Intn(4))*0x1000
+			g.tag("map:last-line-referenced")
 		case !first && r.Chance(35): // adjacent to the previous entry
 			start = prevLimit
 			limit = start + uint64(1+r.Intn(4))*0x1000
@@ -1064,6 +1114,11 @@ func (g *c14Gen) javaLocs() {
 	for i := r.Intn(3); i > 0; i-- {
 		locs = append(locs, uint64(r.Intn(1<<16)))
 	}
+	if len(g.used) > 0 && r.Chance(75) {
+		// the last line of the trailer names an address some sample uses, so that losing it is visible
+		locs = append(locs, g.used[r.Intn(len(g.used))])
+		g.tag("java:last-trailer-line-referenced")
+	}
 	funcs := []string{"com.example.Foo.bar", "java.lang.Object.<init>", "f", "GC", "VM", "a.b$c", "x::y"}
 	g.w.n(len(locs))
 	for _, a := range locs {
@@ -1173,7 +1228,28 @@ func c14Generate(c *Ctx, r *Rng, fi int) (c14Case, *c14Gen) {
 	}
 	g.mkPool()
 	f.gen(g)
-	return c14Case{Format: f.name, Doc: g.w.String(), Approx: g.approx}, g
+	cs := c14Case{Format: f.name, Doc: g.w.String(), Approx: g.approx}
+	// termination / line-ending variant of the printed text (drawn after the document, so the
+	// documents of a seed do not depend on it)
+	if r.Chance(55) {
+		switch r.Intn(4) {
+		case 0:
+			cs.Mask = ^uint64(0)
+			g.tag("term:crlf-throughout")
+		case 1:
+			cs.Mask = r.U64()
+			g.tag("term:crlf-mixed")
+		}
+		if r.Chance(45) {
+			cs.NoFinal = true
+			g.tag("term:no-final-newline")
+		} else if r.Chance(60) {
+			extra := []string{"\n", "\r\n", " \t", "\n\n \t \n", "\t", "\x00", "\x00\n"}[r.Intn(7)]
+			cs.Extra = hex.EncodeToString([]byte(extra))
+			g.tag("term:extra=" + fmt.Sprintf("%q", extra))
+		}
+	}
+	return cs, g
 }
 
 // ---------------------------------------------------------------------------------------------
@@ -1253,7 +1329,7 @@ func bucket(n int) string {
 }
 
 func runC14(c *Ctx) {
-	c.Res.Rule = "random document models of the 7 legacy formats (count, heap incl. heap_v2/heapprofile/heap/growth/fragmentation, contention/mutex, threadz, binary CPU in 4 word layouts, binary Java CPU in 4 word layouts with location trailer, Java heapz/contentionz): 0–80 records, addresses from a pool with boundary values (0,1,2^32,2^63,2^64-1) and repeats, header variants, comment/blank lines, memory map in /proc/maps and brief form (adjacent, offset, non-executable, main-binary heuristics; glog prefixes on lines, name=value attribute lines and $name references in file fields); boundary-exact strategies for the parsers' thresholds: CPU sample counts 31/32/33/63/…/129 with exactly k ∈ {0,1,⌊n/32⌋,⌊n/32⌋+1,…} samples lacking the (fresh-address) signal-handler frame, for the first and for the second removal iteration, profiles without end marker (nstk bound), heap rates 0..5 (period 0/1/2 after halving), signed in-use columns of heap records (both negative, mixed signs, count -1, magnitudes up to MinInt64 where no float arithmetic is involved), contention sampling period {absent,<0,0,1,>1} × cycles/second {absent,<0,0,>0} and negative ms-since-reset; printed by the Lean model, parsed by the real ParseData, compared with the documented conversion and with the Lean model of ParseData (decoder model + parser chain); non-trivial = at least one record with at least one address; distinct by document tokens"
+	c.Res.Rule = "random document models of the 7 legacy formats (count, heap incl. heap_v2/heapprofile/heap/growth/fragmentation, contention/mutex, threadz, binary CPU in 4 word layouts, binary Java CPU in 4 word layouts with location trailer, Java heapz/contentionz): 0–80 records, addresses from a pool with boundary values (0,1,2^32,2^63,2^64-1) and repeats, header variants, comment/blank lines, memory map in /proc/maps and brief form (adjacent, offset, non-executable, main-binary heuristics; glog prefixes on lines, name=value attribute lines and $name references in file fields); boundary-exact strategies for the parsers' thresholds: CPU sample counts 31/32/33/63/…/129 with exactly k ∈ {0,1,⌊n/32⌋,⌊n/32⌋+1,…} samples lacking the (fresh-address) signal-handler frame, for the first and for the second removal iteration, profiles without end marker (nstk bound), heap rates 0..5 (period 0/1/2 after halving), signed in-use columns of heap records (both negative, mixed signs, count -1, magnitudes up to MinInt64 where no float arithmetic is involved), contention sampling period {absent,<0,0,1,>1} × cycles/second {absent,<0,0,>0} and negative ms-since-reset; printed by the Lean model, parsed by the real ParseData, with termination / line-ending variants of the text part (CRLF throughout or on a random subset of lines, last line without terminator, or extra material after the final terminator: blank lines, blanks/tabs, a NUL), the last line of a memory map / Java trailer naming an address a sample uses; compared with the documented conversion (whenever the variant does not change the meaning) and always with the Lean model of ParseData (decoder model + parser chain); non-trivial = at least one record with at least one address; distinct by document tokens"
 	if c.Replay != "" {
 		var cs c14Case
 		if err := c.LoadReplay(&cs); err != nil {
@@ -1274,7 +1350,7 @@ func runC14(c *Ctx) {
 	for i := 0; i < n; i++ {
 		for fi := range c14Formats {
 			cs, g := c14Generate(c, r, fi)
-			c.Res.Count(cs.Format+" "+cs.Doc, g.nrec > 0 && g.naddr > 0)
+			c.Res.Count(fmt.Sprintf("%s %s|%x|%v|%s", cs.Format, cs.Doc, cs.Mask, cs.NoFinal, cs.Extra), g.nrec > 0 && g.naddr > 0)
 			c.Res.Hit("format:" + cs.Format)
 			c.Res.Hit(cs.Format + ":records=" + bucket(g.nrec))
 			if cs.Approx {
